@@ -35,6 +35,8 @@ def tla_value(v):
         return "{" + ", ".join(tla_value(x) for x in sorted(v)) + "}"
     if isinstance(v, dict):
         return "[" + ", ".join("%s |-> %s" % (k, tla_value(x)) for k, x in v.items()) + "]"
+    if hasattr(v, "s"):           # a set of tuples (sets of unorderable python values)
+        return "{" + ", ".join(tla_value(list(x)) for x in sorted(v.s)) + "}"
     raise TypeError(type(v))
 
 
